@@ -40,15 +40,17 @@ def tlist(t):
     return ("list", t)
 
 
-MUTABLE = ("list", "dict", "solver", "wcnf")
+MUTABLE = ("list", "dict", "solver", "wcnf", "isolver")
 
 
 def is_mutable(t):
-    return t in ("solver", "wcnf", "zopt") or (isinstance(t, tuple) and t[0] in ("list", "dict", "set", "wdict"))
+    return t in ("solver", "wcnf", "zopt", "isolver") or (isinstance(t, tuple) and t[0] in ("list", "dict", "set", "wdict"))
 
 
 def coerce(code, t, want):
     """value of static type t where `want` is expected: None / int into Optional[int]"""
+    if want == "isolver" and t == "solver" and code == "new_solver":
+        return "([] : list icon)", "isolver"          # a pysmt Solver that receives integer constraints
     if want == "optint":
         if t == "none":
             return "None", "optint"
@@ -955,6 +957,14 @@ class X:
             if ft != "form":
                 fail(e, "eval of %r" % (ft,))
             return "(eval %s %s)" % (c, fc), "bool", b + fb
+        if t == "isolver" and f.attr == "solve" and not e.args and not e.keywords:
+            fn = self.ctx.table.get("@isolve")        # the SMT solver on integer constraints: an oracle parameter
+            if fn is None:
+                fail(e, "no integer solver oracle declared")
+            if fn not in self.ctx.fn.uses:
+                self.ctx.fn.uses.append(fn)
+            nm = self.ctx.fresh("r")
+            return nm, "bool", b + [(nm, "(%s %s)" % (fn.coq, c), "call")]
         if t == "solver" and f.attr in ("solve", "check") and not e.args and not e.keywords:
             return "(s_solve n %s)" % c, "bool", b      # z3's check(): sat = True, unsat = False ("unknown" is outside the model)
         if isinstance(t, tuple) and t[0] == "set" and f.attr == "issubset":
@@ -1062,7 +1072,7 @@ def flatten_with(stmts, xp, env):
             out.append(s)
     return out
 
-MUTATORS = {("solver", "push", 0): "s_push", ("solver", "pop", 0): "s_pop", ("solver", "add_assertion", 1): "s_add",
+MUTATORS = {("isolver", "add_assertion", 1): "is_add", ("solver", "push", 0): "s_push", ("solver", "pop", 0): "s_pop", ("solver", "add_assertion", 1): "s_add",
             ("solver", "add", 1): "s_add", ("zopt", "push", 0): "o_push", ("zopt", "pop", 0): "o_pop", ("zopt", "add", 1): "o_add",
             ("zopt", "add_soft", 1): "o_add_soft"}
 
@@ -1101,7 +1111,7 @@ class B:
             fail(e, "%s is mutated after it was stored elsewhere (aliasing)" % name)
         if (t, meth, len(e.args)) in MUTATORS:
             cs, ts, b = self.x.simple_args(e, env)
-            if meth in ("add_assertion", "add", "add_soft") and ts != ["form"]:
+            if meth in ("add_assertion", "add", "add_soft") and ts != (["icon"] if t == "isolver" else ["form"]):
                 fail(e, "add_assertion of %r" % ts)
             return name, "(%s %s)" % (MUTATORS[(t, meth, len(e.args))], " ".join([v(name)] + cs)), b, t
         if isinstance(t, tuple) and t[0] == "list" and meth == "append" and len(e.args) == 1:
@@ -1590,7 +1600,7 @@ class B:
 
 # ------------------------------------------------------------------------------------------------ driver
 COQ_TYPES = {"bool": "bool", "int": "Z", "form": "form", "cond": "cond", "solver": "solver", "str": "unit", "none": "unit",
-             "bb": "pybase", "deadline": "unit", "wcnf": "wcnf", "sclause": "sclause", "optimizer": "unit", "tseitin": "unit", "world": "world", "zopt": "zopt", "optint": "(option Z)", "preocf": "(wdict (option Z))", "iterm": "iterm", "icon": "icon", "symidx": "symidx", "float": "unit"}
+             "bb": "pybase", "deadline": "unit", "wcnf": "wcnf", "sclause": "sclause", "optimizer": "unit", "tseitin": "unit", "world": "world", "zopt": "zopt", "optint": "(option Z)", "preocf": "(wdict (option Z))", "iterm": "iterm", "icon": "icon", "isolver": "(list icon)", "symidx": "symidx", "float": "unit"}
 
 
 def coq_type(t):
@@ -1835,6 +1845,11 @@ TARGETS = [
         Fn("compile_and_encode_query", "py_CInference_compile_and_encode_query", [("query", "cond"), ("deadline", "none")], cls="CInference",
            state=[("nf_cnf_dict", "es_nf_cnf_dict", ("dict", SCNF))],
            locals_={"vMin": PART_KEY, "fMin": PART_KEY, "xMins": PART_KEY}),
+        Fn("@isolve", "m_isolve", [("constraints", ("list", "icon"))], ret="bool", abstract=True),
+        Fn("_inference", "py_CInference_inference", [("query", "cond"), ("weakly", "bool"), ("deadline", "none")], cls="CInference",
+           state=[("belief_base", "es_belief_base", "bb"), ("smt_solver", "es_smt_solver", "str"), ("@base_csp", "at_base_csp", ("list", "icon")),
+                  ("nf_cnf_dict", "es_nf_cnf_dict", ("dict", SCNF))],
+           locals_={"solver": "isolver"}),
     ]),
     dict(out="SrcOpt", file="inference/optimizer.py", requires=[], funcs=[
         Fn("remove_supersets", "py_remove_supersets", [("lst_of_sets", ("list", ("set", "int")))], locals_={"filtered": ("list", ("set", "int"))}),
